@@ -159,6 +159,11 @@ def startup_cb(sx, tr, mode, kind):
             return targets[-1:]
         if kind == "empty":
             return []
+        if kind == "with-local-target":
+            # not "a list of those RemoteTarget objects": the option is removed
+            return list(targets[:1]) + [nfc.clf.LocalTarget("106A")]
+        if kind == "with-string":
+            return list(targets[:1]) + ["212F"]
         return RESULT[kind]
 
     def llcp(llc):
@@ -1374,7 +1379,7 @@ def connect_partitions(tier):
     P.append(("rdwr:startup", dict(
         modes=["rdwr"], env="t2-short",
         startup=dict(rdwr=["default", "all", "first", "last", "empty", "None",
-                           "False"]),
+                           "False", "with-local-target", "with-string"]),
         vals={"on-discover": SMALL if full else TF, "on-connect": TF,
               "on-release": ["True"]},
         K=K, targets=["212F", "106A"])))
